@@ -22,6 +22,9 @@ Inductive op :=
 (* the same operations with an argument that points into the section's own buffer *)
 | OpStrAddSelf (i idx : N)             (* add_string( get_string( idx ) ) *)
 | OpDAppSelf (i off len : N)           (* append_data( get_data() + off, len ) *)
+| OpStrNew (k sec : N)                 (* string_section_accessor a( sections[sec] ), kept under handle k *)
+| OpStrGetK (k idx : N)                (* a.get_string( idx ) through that accessor *)
+| OpStrAddK (k : N) (s : bytes)        (* a.add_string( s ) through that accessor *)
 | OpNoteAddSelf (k type : N) (name : bytes) (idx : N)   (* add_note( type, name, desc, descsz ) with desc, descsz as get_note( idx ) returned them *)
 (* symbols *)
 | OpSymAdd (symsec name value size info other shndx : N)
@@ -162,6 +165,7 @@ Inductive acc :=
 | ANote (a : note_acc)
 | AMod (a : mod_acc)
 | AVs (a : vs_acc)
+| AStr (sec : N)               (* a string_section_accessor kept alive across operations: it holds nothing but the section *)
 | AVer (sec : N) (num : N).
 
 Record world := mkWorld1 { w_el : elfio; w_accs : list (N * acc); w_allocs : list N;
@@ -415,6 +419,24 @@ Definition step1 (w : world) (o : op) : res (world * list obs) :=
       s <- need_sec el1 i ;;
       r <- get_string_raw p (sh_size s) (wrap32 idx) ;;
       Ok (mkWorld el1, [ObB T_STRGET [i; idx] r])
+  | OpStrNew k sec => _ <- need_sec el sec ;; Ok (set_acc w el k (AStr sec), [])
+  | OpStrGetK k idx =>
+      match find_acc (w_accs w) k with
+      | Some (AStr i) =>
+          '(el1, p) <- el_sec_get_data junk0 el i ;;
+          s <- need_sec el1 i ;;
+          r <- get_string_raw p (sh_size s) (wrap32 idx) ;;
+          Ok (mkWorld el1, [ObB T_STRGET [i; idx] r])
+      | _ => Fault NullDeref
+      end
+  | OpStrAddK k str =>
+      match find_acc (w_accs w) k with
+      | Some (AStr i) =>
+          s <- need_sec el i ;;
+          '(s1, idx) <- add_string junk0 (xe el) s (take_cstr str) ;;
+          Ok (mkWorld (upd_sec el i s1), [ObN T_STRADD [i; idx]])
+      | _ => Fault NullDeref
+      end
   | OpStrAddSelf i idx =>
       (* value semantics: the string is read first; the C++ passes the pointer get_string() returned *)
       '(el1, p) <- el_sec_get_data junk0 el i ;;
